@@ -81,7 +81,9 @@ fn main() {
         }
         // invariance along every move edge, q -> 1/q under mirroring (library values)
         if d.n <= 3 {
-            for (mv, d2) in pd_moves(d, true) {
+            let mut moves = pd_moves(d, true);
+            moves.extend(pd_r2_moves(d));
+            for (mv, d2) in moves {
                 run.add("move_edges", 1);
                 if let Some(j2) = check(&run, &format!("{name}:{mv}"), &d2, d.n <= 2) {
                     if j2 != j {
